@@ -38,8 +38,10 @@ DerChainCut(n) == IF n >= 30 THEN <<48, 130, 0, 4, 1, 2, 3, 4, 48, 130, 0, 3, 5,
 TailLike(n, tail) == IF n >= Len(tail) THEN Rep(1, n - Len(tail)) \o tail ELSE Rep(160, n)
 Tails == {<<0, 160>>, <<160>>, <<255>>, <<246>>, <<0>>}
 
-ByteLens(max) == IF max < 0 THEN {0, 1, 23, 24, 255, 256, 300}
-                 ELSE {n \in {0, 1, 23, 24, 255, 256} : n <= max} \cup {max}
+\* the head-width thresholds, the capacity, and the powers of two with their neighbours (block sizes)
+Pow2ish == {15, 16, 17, 31, 32, 33, 63, 64, 65, 127, 128, 129}
+ByteLens(max) == IF max < 0 THEN {0, 1, 23, 24, 255, 256, 300} \cup Pow2ish
+                 ELSE {n \in {0, 1, 23, 24, 255, 256} \cup Pow2ish : n <= max} \cup {max}
 BytesAlts(max) ==
     {Pattern(40, n) : n \in ByteLens(max)}
     \cup (LET m == IF max < 0 THEN 40 ELSE Min2(max, 40) IN
@@ -47,8 +49,8 @@ BytesAlts(max) ==
     \cup (IF max < 0 \/ max >= 300 THEN {DerChain(300), DerChainCut(300), DerSeqInt(300)} ELSE {})
 
 Euro == <<226, 130, 172>>
-TextLens(max) == IF max < 0 THEN {0, 1, 23, 24, 255, 256, 300}
-                 ELSE {n \in {0, 1, 23, 24, 255, 256} : n <= max} \cup {max}
+TextLens(max) == IF max < 0 THEN {0, 1, 23, 24, 255, 256, 300} \cup Pow2ish
+                 ELSE {n \in {0, 1, 23, 24, 255, 256} \cup Pow2ish : n <= max} \cup {max}
 \* contents, not only sizes: white space at either end (code that trims), the words of the
 \* source's own dictionary alone and as a prefix of a longer text (code that recognises a scheme, a
 \* magic identifier, a second spelling)
@@ -176,6 +178,7 @@ Alts(ty, F, host) ==
             IN  {<< >>} \cup {<<e>> : e \in es}
                 \cup (IF cap >= 2 /\ Len(few) >= 1 THEN {<<few[1], few[1]>>} ELSE {})                  \* a repeated entry
                 \cup (IF cap >= 2 /\ Len(few) >= 2 THEN {<<few[1], few[2]>>, <<few[2], few[1]>>} ELSE {})   \* both orders
+                \cup (IF cap >= 3 /\ Len(few) >= 2 THEN {<<few[1], few[2], few[1]>>} ELSE {})              \* equal to an earlier, not adjacent
                 \cup (IF Len(few) >= 1 THEN {[i \in 1..cap |-> few[((i - 1) % Len(few)) + 1]]} ELSE {})    \* full
       [] ty.t = "params" -> IF host THEN ParamsAltsHost ELSE ParamsAlts
       [] ty.t = "formats" -> {<< >>, <<N_packed>>, <<N_none, N_packed>>, <<N_tpm, N_none, N_tpm, N_packed>>, <<N_packed, N_packed, N_none>>,
@@ -315,6 +318,29 @@ PerModeOn(s, F, host, base) ==
     IN  UNION {UNION {OneAtATimeOn(s, F, host, [base EXCEPT ![ms[i].name] = WrapFor(ms[i], e)]) : e \in ModeValues(ms[i])} : i \in modes}
 PerMode(s, F, host) == PerModeOn(s, F, host, MinOf(s, F, host))
 PerModeDeep(s, F, host) == PerMode(s, F, host) \cup PerModeOn(s, F, host, FullOfLows(s, F, host))
+
+\* RELATIONS between two members of the same kind: equal contents, one a prefix of the other, equal
+\* lengths with different contents (a member compared with, copied from or indexed by another)
+IsBytesTy(ty) == ty.t = "bytes"
+FitLen(ty, n) == IF ty.t = "bytes" THEN (IF ty.max < 0 THEN n ELSE Min2(n, ty.max))
+                 ELSE IF ty.t = "str" THEN (IF ty.max < 0 THEN n ELSE Min2(n, ty.max)) ELSE Min2(n, ty.L)
+RelatedPairs(s, F, host) ==
+    LET min == MinOf(s, F, host)
+        ms  == Members(s, F)
+        \* (a byte string and a text can hold the same bytes too: a user handle equal to the user name)
+        rel(i, j) == LET a == InnerTy(ms[i].ty)
+                         b == InnerTy(ms[j].ty)
+                     IN  (IsBytesTy(a) \/ IsTextTy(a)) /\ (IsBytesTy(b) \/ IsTextTy(b))
+        val(ty, seed, n) == AsciiPattern(seed, FitLen(ty, n))
+    IN  UNION {UNION {IF ~rel(i, j) THEN {} ELSE
+                      LET a == InnerTy(ms[i].ty)
+                          b == InnerTy(ms[j].ty)
+                      IN  {[min EXCEPT ![ms[i].name] = WrapFor(ms[i], val(a, 61, 16)), ![ms[j].name] = WrapFor(ms[j], val(b, 61, 16))],    \* equal
+                           [min EXCEPT ![ms[i].name] = WrapFor(ms[i], val(a, 61, 32)), ![ms[j].name] = WrapFor(ms[j], val(b, 61, 32))],    \* equal, one block
+                           [min EXCEPT ![ms[i].name] = WrapFor(ms[i], val(a, 61, 8)), ![ms[j].name] = WrapFor(ms[j], val(b, 61, 20))],     \* a prefix of b
+                           [min EXCEPT ![ms[i].name] = WrapFor(ms[i], val(a, 61, 20)), ![ms[j].name] = WrapFor(ms[j], val(b, 61, 8))],     \* b a prefix of a
+                           [min EXCEPT ![ms[i].name] = WrapFor(ms[i], val(a, 61, 16)), ![ms[j].name] = WrapFor(ms[j], val(b, 62, 16))]}    \* equal lengths
+                      : j \in (i + 1)..Len(ms)} : i \in 1..Len(ms)}
 
 \* the minimal value with every TRIPLE of members at the upper end of their types
 ThreeAtATime(s, F, host) ==
